@@ -385,8 +385,12 @@ def one(node, item, index, out, seen):
             out.fail('report-requests-reports', 'the status report itself requests status reports (flags 0x%x)' % pri['flags'])
         if not (rep['_crc_ok'] if '_crc_ok' in rep else r.all_crc_ok(rep)):
             out.fail('report-crc', 'status report has an invalid CRC')
-        if pri['crc_type'] == 0 or r.payload_block(rep)['crc_type'] == 0:
-            out.label('report-without-crc')
+        if pri['crc_type'] == 0:
+            # (RFC 9171 4.3.1: a primary block that no BIB targets carries a CRC - "valid CRCs" is not met by having none)
+            out.fail('report-primary-without-crc', 'status report leaves with CRC type 0 on its primary block (subject primary CRC type %s)'
+                     % bundle['primary']['crc_type'])
+        if r.payload_block(rep)['crc_type'] == 0:
+            out.label('report-payload-without-crc')
         try:
             body = r.parse_status_report(r.payload_block(rep)['data'])
         except r.RefError as exc:
